@@ -79,7 +79,15 @@ func observeTok(t *biscuit.Biscuit, pub []byte) (o tokObs) {
 		rb.Write(id[:4])
 	}
 	o.Rev = fmt.Sprintf("%x", rb.Bytes())
-	o.Syms = symsInCode(t.Code())
+	// Code() prints the later blocks only; the authority block (own symbols of a token made by Builder.Build) is read from String()
+	auth := o.Str
+	if i := strings.Index(auth, "authority:"); i >= 0 {
+		auth = auth[i:]
+	}
+	if i := strings.Index(auth, "blocks:"); i >= 0 {
+		auth = auth[:i]
+	}
+	o.Syms = symsInCode(append([]string{auth}, t.Code()...))
 	a, err := t.AuthorizerFor(biscuit.WithSingularRootPublicKey(pub), biscuit.WithWorldOptions(datalog.WithMaxDuration(20*time.Second)))
 	if err != nil {
 		o.Auth = "verify: " + err.Error()
@@ -116,6 +124,7 @@ func runHeap(c *HeapCase) (interface{}, error) {
 	birth := []tokObs{observeTok(root, pub)}
 	type bb struct {
 		b    biscuit.BlockBuilder
+		rb   biscuit.Builder // authority builder (newbuilder / buildroot)
 		tok  int
 		adds int
 	}
@@ -165,13 +174,33 @@ func runHeap(c *HeapCase) (interface{}, error) {
 		switch op.Op {
 		case "create":
 			bbs = append(bbs, &bb{b: toks[op.T-1].CreateBlock(), tok: op.T - 1})
+		case "newbuilder":
+			bbs = append(bbs, &bb{rb: biscuit.NewBuilder(priv), tok: -1})
+		case "buildroot":
+			x := bbs[op.B-1]
+			var nt *biscuit.Biscuit
+			var err error
+			func() {
+				defer func() {
+					if r := recover(); r != nil {
+						err = fmt.Errorf("panic: %v", r)
+					}
+				}()
+				nt, err = x.rb.Build()
+			}()
+			if err != nil || nt == nil {
+				bad = append(bad, fmt.Sprintf("step %d buildroot: %v", step, err))
+				return map[string]interface{}{"bad": bad, "tokens": len(toks), "blocks": len(blks)}, nil
+			}
+			toks = append(toks, nt)
+			birth = append(birth, observeTok(nt, pub))
 		case "add":
 			x := bbs[op.B-1]
 			x.adds++
 			p := biscuit.Predicate{Name: symName(c.Emb, op.S), IDs: []biscuit.Term{biscuit.Integer(int64(100*op.B + x.adds))}}
 			var err error
-			if (c.Emb+int64(step))%3 == 0 { // a check instead of a fact: same symbol interning path, different container
-				err = x.b.AddFact(biscuit.Fact{Predicate: p})
+			if x.rb != nil {
+				err = x.rb.AddAuthorityFact(biscuit.Fact{Predicate: p})
 			} else {
 				err = x.b.AddFact(biscuit.Fact{Predicate: p})
 			}
@@ -180,7 +209,18 @@ func runHeap(c *HeapCase) (interface{}, error) {
 			}
 		case "build":
 			x := bbs[op.B-1]
-			b := x.b.Build()
+			var b *biscuit.Block
+			func() { // a builder is not consumed by Build: building again must not fail (SymHeap!NoSplitPanic)
+				defer func() {
+					if r := recover(); r != nil {
+						bad = append(bad, fmt.Sprintf("step %d build: panic: %v", step, r))
+					}
+				}()
+				b = x.b.Build()
+			}()
+			if b == nil {
+				return map[string]interface{}{"bad": bad, "tokens": len(toks), "blocks": len(blks)}, nil
+			}
 			blks = append(blks, &blk{b: b, tok: x.tok, birth: biscuit.VerifBlockSymbols(b)})
 			k := len(blks) - 1
 			if k < len(c.BWant) {
@@ -222,7 +262,7 @@ func runHeap(c *HeapCase) (interface{}, error) {
 			birth = append(birth, observeTok(nt, pub))
 		}
 		// content at birth = what the caller put in
-		if n := len(toks) - 1; (op.Op == "append" || op.Op == "seal" || op.Op == "reload") && n < len(c.Want) {
+		if n := len(toks) - 1; (op.Op == "append" || op.Op == "seal" || op.Op == "reload" || op.Op == "buildroot") && n < len(c.Want) {
 			if !sameInts(birth[n].Syms, c.Want[n]) {
 				bad = append(bad, fmt.Sprintf("step %d (%s): token %d carries symbols %v, its callers put in %v", step, op.Op, n+1, birth[n].Syms, c.Want[n]))
 			}
@@ -260,8 +300,8 @@ func init() {
 			type tk struct{ sealed bool }
 			toks := []tk{{}}
 			type bbS struct {
-				tok, adds int
-				live      bool
+				tok, adds  int
+				live, root bool
 			}
 			bbs := []bbS{}
 			blks := []int{} // parent token per built block
@@ -269,6 +309,7 @@ func init() {
 			nsym := 0
 			fresh := func() int { nsym++; return nsym }
 			steps := 8 + r.Intn(18)
+			reuse := i%2 == 1
 			// phase 1: grow a chain of 0..6 blocks (0..3 symbols each) so that the newest token carries a table and a block
 			// list of varying length -- every spare-capacity situation of the allocator occurs for some seed
 			depth := r.Intn(7)
@@ -285,6 +326,20 @@ func init() {
 				blks = append(blks, bbs[b-1].tok)
 				hist = append(hist, HeapOp{Op: "append", K: len(blks)})
 				toks = append(toks, tk{})
+			}
+			if i%3 == 2 { // authority builders: filled, built, (in reuse mode) filled further and built again
+				for nb := 1 + r.Intn(2); nb > 0; nb-- {
+					hist = append(hist, HeapOp{Op: "newbuilder"})
+					bbs = append(bbs, bbS{tok: 0, live: true, root: true})
+					b := len(bbs)
+					for k, n := 0, r.Intn(4); k < n && nsym < 9; k++ {
+						hist = append(hist, HeapOp{Op: "add", B: b, S: fresh()})
+						bbs[b-1].adds++
+					}
+					hist = append(hist, HeapOp{Op: "buildroot", B: b})
+					toks = append(toks, tk{})
+					bbs[b-1].live = reuse
+				}
 			}
 			for s := 0; s < steps && len(toks) < 16; s++ {
 				live := []int{}
@@ -318,8 +373,15 @@ func init() {
 					bbs[b-1].adds++
 				case k < 7 && len(live) > 0:
 					b := live[r.Intn(len(live))]
+					if bbs[b-1].root {
+						hist = append(hist, HeapOp{Op: "buildroot", B: b})
+						toks = append(toks, tk{})
+						bbs[b-1].live = r.Intn(3) != 0
+						continue
+					}
 					hist = append(hist, HeapOp{Op: "build", B: b})
-					bbs[b-1].live = false
+					// Build does not consume a builder: in half of the histories it is filled further and built again
+					bbs[b-1].live = reuse && r.Intn(3) != 0
 					blks = append(blks, bbs[b-1].tok)
 				case k < 8 && len(blks) > 0:
 					kk := 1 + r.Intn(len(blks))
@@ -347,7 +409,10 @@ func init() {
 			}
 			// finish: build and append everything still open so that corrupted content becomes observable
 			for b, x := range bbs {
-				if x.live {
+				if x.live && x.root {
+					hist = append(hist, HeapOp{Op: "buildroot", B: b + 1})
+					toks = append(toks, tk{})
+				} else if x.live {
 					hist = append(hist, HeapOp{Op: "build", B: b + 1})
 					blks = append(blks, x.tok)
 				}
